@@ -68,7 +68,7 @@ func (fx *fnExec) invokeHooks(m *types.Func, recv Val, args []Val, st *State, po
 		if !ok {
 			cur = BVI(0, 64)
 		}
-		st.Ghost[g.Name] = BVAdd(cur, dt)
+		st.Ghost[g.Name] = fx.ghostAdd(st, cur, dt)
 	}
 }
 
